@@ -640,6 +640,8 @@ impl<'a> Explorer<'a> {
 
 pub fn run_c14(ctx: &Ctx, st: &mut Local) {
     let s = ctx.cur;
+    let t_start = std::time::Instant::now();
+    let timing = std::env::var("PFV_TIMING").is_ok();
     static INP: std::sync::OnceLock<Inputs> = std::sync::OnceLock::new();
     let inp_shared: &Inputs = INP.get_or_init(|| Inputs::build(s));
     let inp = Inputs { blobs: inp_shared.blobs.clone() };
@@ -651,6 +653,7 @@ pub fn run_c14(ctx: &Ctx, st: &mut Local) {
 
     // (0) rendezvous (first: every worker starts here, so a deadlock between concurrent calls is met inside these cases): N threads run the same call and meet at one hook site inside it, so that all N are inside the same
     // region of the library at the same moment (admission limits, pools, per-call slots: N = 16, 17, 33, ...)
+    if timing { eprintln!("T{} {:.1}s before rendezvous", ctx.thread, t_start.elapsed().as_secs_f64()); }
     let name = "rendezvous";
     if ctx.engine_on(name) {
         s.set_sched_hook(Some(hook));
@@ -710,6 +713,7 @@ pub fn run_c14(ctx: &Ctx, st: &mut Local) {
     }
 
     // (1) histspace: all call sequences of length <= 3
+    if timing { eprintln!("T{} {:.1}s before histspace", ctx.thread, t_start.elapsed().as_secs_f64()); }
     let name = "histspace";
     if ctx.engine_on(name) {
         // baseline: every call as the first call of a fresh process
@@ -759,10 +763,10 @@ pub fn run_c14(ctx: &Ctx, st: &mut Local) {
             if !hist.is_empty() {
                 let i = *idx;
                 *idx += 1;
-                if ctx.sel.mine(i) {
+                if mine_not0(ctx, i) {
                     count(ctx, "histspace", st, i);
                 }
-                if ctx.take("histspace", i) {
+                if take_not0(ctx, "histspace", i) {
                     st.sample("histspace", || format!("#{} history {:?}", i, hist.iter().map(|&c| CALL_NAMES[c]).collect::<Vec<_>>()));
                     ctx.begin("histspace", i, 120_000);
                     // a fresh OS thread per history, so that thread-local state starts empty and the
@@ -811,6 +815,7 @@ pub fn run_c14(ctx: &Ctx, st: &mut Local) {
     }
 
     // (2) cross-process environments
+    if timing { eprintln!("T{} {:.1}s before procspace", ctx.thread, t_start.elapsed().as_secs_f64()); }
     let name = "procspace";
     if ctx.engine_on(name) {
         let path = format!("/verif/target/run/c14_inputs_p{}_{}.bin", std::process::id(), ctx.thread);
@@ -875,6 +880,7 @@ pub fn run_c14(ctx: &Ctx, st: &mut Local) {
 
     // (2b) first use under contention (sampled): in fresh processes, many threads start the same call
     // at the same moment, so that lazily initialised state is raced on its first use
+    if timing { eprintln!("T{} {:.1}s before firstuse(sampled)", ctx.thread, t_start.elapsed().as_secs_f64()); }
     let name = "firstuse(sampled)";
     if ctx.engine_on(name) {
         let path = format!("/verif/target/run/c14_inputs_f{}_{}.bin", std::process::id(), ctx.thread);
@@ -923,6 +929,7 @@ pub fn run_c14(ctx: &Ctx, st: &mut Local) {
 
     // (2c) time warp: a thread is held for seconds at a hook point in the middle of a call; the result
     // must not depend on how much wall-clock time the call took
+    if timing { eprintln!("T{} {:.1}s before timewarp", ctx.thread, t_start.elapsed().as_secs_f64()); }
     let name = "timewarp";
     if ctx.engine_on(name) {
         s.set_sched_hook(Some(hook));
@@ -930,6 +937,10 @@ pub fn run_c14(ctx: &Ctx, st: &mut Local) {
         let mut idx = 0u64;
         for id in 0..NCALLS {
             if id == 8 || id == 9 || id == BIG_CALL {
+                continue;
+            }
+            // quick tier: one of the six hash-variant calls and one of each pair of near-identical calls
+            if ctx.quick() && (id == 4 || (14..=18).contains(&id) || id == 22) {
                 continue;
             }
             // which hook sites does this call reach?
@@ -942,10 +953,10 @@ pub fn run_c14(ctx: &Ctx, st: &mut Local) {
                 }
                 let i = idx;
                 idx += 1;
-                if ctx.sel.mine(i) {
+                if mine_not0(ctx, i) {
                     count(ctx, name, st, i);
                 }
-                if !ctx.take(name, i) {
+                if !take_not0(ctx, name, i) {
                     continue;
                 }
                 st.sample(name, || format!("#{} {} held for {} ms at hook site {}", i, CALL_NAMES[id], ms, site));
@@ -963,11 +974,12 @@ pub fn run_c14(ctx: &Ctx, st: &mut Local) {
             }
         }
         let e = st.eng(name);
-        e.bound = format!("20 calls x every hook site the call reaches: the calling thread sleeps {} ms at the first visit of the site", ms);
+        e.bound = format!("{} calls x every hook site the call reaches: the calling thread sleeps {} ms at the first visit of the site", if ctx.quick() { 13 } else { 20 }, ms);
         e.exhaustive = true;
     }
 
     // (3) schedspace: only one explorer can own the global scheduler; thread 0 runs it
+    if timing { eprintln!("T{} {:.1}s before schedspace", ctx.thread, t_start.elapsed().as_secs_f64()); }
     let name = "schedspace";
     if ctx.engine_on(name) && (ctx.thread == 0) {
         let bound = if ctx.quick() { 2 } else { 3 };
@@ -1036,6 +1048,7 @@ pub fn run_c14(ctx: &Ctx, st: &mut Local) {
 
     // (3b) argspace: the same argument bytes at every address alignment (a result may depend on the bytes of an
     // argument, not on where the caller keeps them)
+    if timing { eprintln!("T{} {:.1}s before argspace", ctx.thread, t_start.elapsed().as_secs_f64()); }
     let name = "argspace";
     if ctx.engine_on(name) {
         let shifts: usize = if ctx.quick() { 16 } else { 64 };
@@ -1084,6 +1097,7 @@ pub fn run_c14(ctx: &Ctx, st: &mut Local) {
 
     // (4) free-running stress (sampling; supplementary): all workers start the same call at the
     // same moment (barrier) so that executions of the same code overlap as much as possible
+    if timing { eprintln!("T{} {:.1}s before stress(sampled)", ctx.thread, t_start.elapsed().as_secs_f64()); }
     let name = "stress(sampled)";
     if ctx.engine_on(name) && ctx.sel.only_engine.is_none() && ctx.sel.nshards == ctx.nthreads as u64 {
         static BARRIER: std::sync::OnceLock<std::sync::Barrier> = std::sync::OnceLock::new();
@@ -1120,6 +1134,7 @@ pub fn run_c14(ctx: &Ctx, st: &mut Local) {
 
     // (5) gianthist (last: the 1 GiB allocation changes the allocator's thresholds for whatever follows): one call on a stream with more than 1 GiB of plaintext that the analysis gives up on, then
     // ordinary calls on the same thread and on a new thread (byte-counted global state, error paths)
+    if timing { eprintln!("T{} {:.1}s before gianthist", ctx.thread, t_start.elapsed().as_secs_f64()); }
     let name = "gianthist";
     if ctx.engine_on(name) {
         let i = 0u64;
@@ -1170,6 +1185,20 @@ pub fn run_c14(ctx: &Ctx, st: &mut Local) {
         e.bound = "one history: a call on a 7 MB stream with 1.1 GiB of plaintext, then 8 ordinary calls on the same thread and the same 8 on a new thread".into();
         e.exhaustive = true;
     }
+}
+
+/// ownership rule for the sleep- and child-process-bound engines: worker 0 also runs the whole schedule exploration, so
+/// in a full run the cases of these engines are dealt to workers 1.. only (single-case replay is unaffected)
+fn mine_not0(ctx: &Ctx, i: u64) -> bool {
+    if ctx.sel.nshards == ctx.nthreads as u64 && ctx.nthreads > 1 && ctx.sel.only_engine.is_none() {
+        (i % (ctx.nthreads as u64 - 1)) + 1 == ctx.thread as u64
+    } else {
+        ctx.sel.mine(i)
+    }
+}
+
+fn take_not0(ctx: &Ctx, engine: &str, i: u64) -> bool {
+    mine_not0(ctx, i) && !ctx.sel.skip.iter().any(|(e, k)| *k == i && e == engine)
 }
 
 fn count(ctx: &Ctx, name: &str, st: &mut Local, _i: u64) {
